@@ -48,12 +48,32 @@ type whEndpoint struct {
 	mu   sync.Mutex
 	hits int
 	bad  int
+	down bool
+}
+
+func (e *whEndpoint) setDown(v bool) {
+	e.mu.Lock()
+	e.down = v
+	e.mu.Unlock()
 }
 
 const whNodeURL = "notary-node-url:8000"
 
 func (e *whEndpoint) handler() http.Handler {
 	return http.HandlerFunc(func(rw http.ResponseWriter, r *http.Request) {
+		e.mu.Lock()
+		down := e.down
+		e.mu.Unlock()
+		if down {
+			// an endpoint that is down: the connection is dropped without an answer and nothing is received. (The
+			// listener stays, so that coming back does not depend on getting the same port again.)
+			if hj, ok := rw.(http.Hijacker); ok {
+				if c, _, err := hj.Hijack(); err == nil {
+					_ = c.Close()
+				}
+			}
+			return
+		}
 		body, _ := io.ReadAll(r.Body)
 		var m struct {
 			Time  time.Time `json:"time"`
@@ -248,14 +268,10 @@ func (w *whWorld) step(op whOp, enc *json.Encoder) error {
 		hits, bad := w.drain()
 		ev = map[string]any{"a": "Notify", "ws": op.Ws, "hits": hits, "wellformed": bad == 0}
 	case "down":
-		w.ep[op.U].stop()
+		w.ep[op.U].setDown(true)
 		ev = map[string]any{"a": "Down", "u": op.U}
 	case "up":
-		if w.ep[op.U].srv == nil {
-			if err := w.ep[op.U].start(); err != nil {
-				return err
-			}
-		}
+		w.ep[op.U].setDown(false)
 		ev = map[string]any{"a": "Up", "u": op.U}
 	default:
 		return fmt.Errorf("unknown op %q", op.Op)
